@@ -113,10 +113,11 @@ func fetch(
 			unmarshalFn := blk.UnmarshalFn(root)
 			err := unmarshal(unmarshalFn, bitswapBlk.RawData())
 			if err != nil {
-				// this means verification succeeded in the hasher but failed here
-				// this case should never happen in practice
-				// and if so something is really wrong
-				panic(fmt.Sprintf("unmarshaling duplicate block: %s", err))
+				// verification succeeded in the hasher but failed here. This does happen: once the
+				// original Block is populated, its UnmarshalFn accepts any further data for the CID
+				// without looking at it, so a peer can make the hasher pass garbage for a CID that a
+				// duplicate request still waits for. Fail the fetch instead of taking the node down.
+				return fmt.Errorf("unmarshaling duplicate block: %w", err)
 			}
 			// NOTE: This approach has a downside that we redo deserialization and computationally
 			// expensive computation for as many duplicates. We tried solutions that doesn't have this
